@@ -235,6 +235,16 @@ pub fn cases_for(prop: &str, tier: &str, seed: u64, shard: (usize, usize)) -> (V
                 cases.push(c);
             }
         }
+        "C18" => {
+            // exhaustive per schema; one case per pool schema (knows_nothing included), shard 0 only
+            let depth = if tier == "thorough" { 3 } else { 2 };
+            for (i, si) in pool.iter().enumerate() {
+                if i % shard.1 == shard.0 {
+                    cases.push(Case { id: format!("ext-{}", si.name), family: "exhaustive-per-schema".into(), schema: i, op: "ext".into(), doc: None,
+                        extra: vec![depth.to_string(), values_sexp()], note: String::new() });
+                }
+            }
+        }
         "C19" => {
             let n = budget(tier, 500, 12000) / shard.1;
             family_random_docs(&mut cases, &pool, &mut rng, n, "collect", &format!("c{}x", shard.0), false);
@@ -289,6 +299,7 @@ pub fn run_impl(c: &Case, si: &SchemaInfo, doc: Option<&q::Document>) -> Vec<Str
         "trace" => crate::op_trace::run_trace(&si.doc, doc.unwrap()),
         "strace" => crate::op_trace::run_strace(&si.doc),
         "collect" => crate::op_misc::run_collect(&si.doc, doc.unwrap()),
+        "ext" => crate::op_misc::run_ext(&si.doc, c.extra[0].parse().unwrap()),
         "validate13" => crate::op_validate::run_validate13(&si.doc, doc.unwrap(), &crate::op_validate::parse_plan(&c.extra[0])),
         "validate" => crate::op_validate::run_validate(&si.doc, doc.unwrap(), &crate::op_validate::parse_plan(&c.extra[0])),
         _ => vec!["NOIMPL".to_string()],
@@ -408,4 +419,9 @@ pub fn c03_cases(pool: &[SchemaInfo], rng: &mut Rng, tier: &str, shard: (usize, 
         }
     }
     cases
+}
+
+pub fn values_sexp() -> String {
+    let vals = crate::op_misc::value_pool();
+    format!("(vals {})", vals.iter().map(crate::sx::value).collect::<Vec<_>>().join(" "))
 }
